@@ -1,5 +1,5 @@
 (* Executable entry points for C01: correspondence ops (model) and specification oracles. *)
-From Verif Require Import Lib.Bytes Json.Ast Json.Parse Json.Print Json.CanonC01 Json.CanonSpecC01 Crash.Outcome Json.CompactModelC01.
+From Verif Require Import Lib.Bytes Json.Ast Json.Parse Json.Print Json.CanonC01 Json.CanonSpecC01 Crash.Outcome Json.CompactModelC01 Json.DepthC01.
 Open Scope N_scope.
 
 Definition show (r : option bytes) : bytes :=
@@ -7,11 +7,35 @@ Definition show (r : option bytes) : bytes :=
 
 (* [t] -> CanonicalJSON *)
 Definition run_canonical_C01 (args : list bytes) : bytes :=
+  match args with [t] => show (canonical_json t) | _ => bs "badargs" end.
+
+(* [t] -> CanonicalJSONAssumeValid / CompactJSON+SortJSON on a valid text: no nesting test there *)
+Definition run_canonical_unguarded (args : list bytes) : bytes :=
   match args with [t] => show (canonical t) | _ => bs "badargs" end.
 
+(* [t] -> jsonNestingExceeds(t, maxJSONDepth) *)
+Definition run_nesting (args : list bytes) : bytes :=
+  match args with [t] => if nesting_exceeds t max_json_depth then bs "exceeds" else bs "within" | _ => bs "badargs" end.
+
 (* [t; ver] -> EnforcedCanonicalJSON *)
+(* verdicts only (very deep texts): [t] / [t; ver] *)
+Definition run_accepts (args : list bytes) : bytes :=
+  match args with [t] => if canonical_json_accepts t then bs "ok" else bs "err" | _ => bs "badargs" end.
+Definition run_enforced_accepts (args : list bytes) : bytes :=
+  match args with [t; ver] => if enforced_json_accepts ver t then bs "ok" else bs "err" | _ => bs "badargs" end.
+
+(* [t; limit] -> jsonNestingExceeds(t, limit) for any limit *)
+Definition run_nesting_lim (args : list bytes) : bytes :=
+  match args with
+  | [t; l] => match parse_int l with
+              | Some z => if nesting_exceeds t z then bs "exceeds" else bs "within"
+              | None => bs "badargs"
+              end
+  | _ => bs "badargs"
+  end.
+
 Definition run_enforced (args : list bytes) : bytes :=
-  match args with [t; ver] => show (enforced ver t) | _ => bs "badargs" end.
+  match args with [t; ver] => show (enforced_json ver t) | _ => bs "badargs" end.
 
 (* [t] -> gjson.Valid *)
 Definition run_valid (args : list bytes) : bytes :=
@@ -21,7 +45,7 @@ Definition run_valid (args : list bytes) : bytes :=
 Definition run_pair (args : list bytes) : bytes :=
   match args with
   | [t1; t2] =>
-      match canonical t1, canonical t2 with
+      match canonical_json t1, canonical_json t2 with
       | Some c1, Some c2 => (if bytes_eqb c1 c2 then bs "same:" else bs "differ:") ++ c1 ++ [10] ++ c2
       | _, _ => bs "err"
       end
@@ -78,12 +102,13 @@ Definition prop_same_value (args : list bytes) : bytes :=
       match parse_json t, strip_ok obs with
       | None, None => bs "ok"
       | None, Some _ => bs "FAIL invalid input accepted"
-      | Some _, None => bs "FAIL valid input refused"
+      | Some v, None => if too_deep v then bs "ok" else bs "FAIL valid input refused"
       | Some v, Some out =>
           match parse_json out with
           | None => bs "FAIL output is not valid JSON"
           | Some v' =>
-              if negb (json_nodup v) then bs "ok" (* duplicate keys: outside the property's domain *)
+              if too_deep v then bs "FAIL document nested deeper than the limit accepted"
+              else if negb (json_nodup v) then bs "ok" (* duplicate keys: outside the property's domain *)
               else if json_same v v' && json_same v' v then bs "ok" else bs "FAIL output denotes another value"
           end
       end
@@ -113,7 +138,7 @@ Definition prop_idempotent (args : list bytes) : bytes :=
       match strip_ok obs with
       | None => bs "ok"
       | Some out =>
-          match canonical out with
+          match canonical_json out with
           | Some out' => if bytes_eqb out out' then bs "ok" else bs "FAIL second canonicalisation differs"
           | None => bs "FAIL output refused by canonicalisation"
           end
@@ -131,6 +156,22 @@ Definition prop_compact_safe (args : list bytes) : bytes :=
       else if Bool.eqb panicked (negb (compact_safe t)) then bs "ok"
       else if panicked then bs "FAIL panic on a text the scanner calls safe"
       else bs "FAIL no panic on a text the scanner calls unsafe"
+  | _ => bs "badargs"
+  end.
+
+(* the nesting limit, on the verdict alone: a JSON text is refused when its value nests deeper than
+   the limit and accepted otherwise; anything else is refused.  [t; obs], obs = ok / ok:... / err *)
+Definition prop_depth (args : list bytes) : bytes :=
+  match args with
+  | [t; obs] =>
+      let accepted := is_prefix (bs "ok") obs in
+      match parse_json t with
+      | None => if accepted then bs "FAIL invalid input accepted" else bs "ok"
+      | Some v =>
+          if too_deep v then
+            (if accepted then bs "FAIL document nested deeper than the limit accepted" else bs "ok")
+          else if accepted then bs "ok" else bs "FAIL valid input within the limit refused"
+      end
   | _ => bs "badargs"
   end.
 
@@ -152,7 +193,9 @@ Definition prop_unique (args : list bytes) : bytes :=
       | Some v1, Some v2 =>
           let same := json_same v1 v2 && json_same v2 v1 in
           let same_matrix := json_same_matrix v1 v2 && json_same_matrix v2 v1 in
-          if negb (json_nodup v1 && json_nodup v2) then bs "ok" (* outside the domain *)
+          if too_deep v1 || too_deep v2 then
+            (if bytes_eqb obs (bs "err") then bs "ok" else bs "FAIL document nested deeper than the limit accepted")
+          else if negb (json_nodup v1 && json_nodup v2) then bs "ok" (* outside the domain *)
           else if is_prefix (bs "same:") obs then
             if same then bs "ok" else bs "FAIL different values, identical canonical bytes"
           else if is_prefix (bs "differ:") obs then
@@ -173,11 +216,13 @@ Definition prop_enforced (args : list bytes) : bytes :=
       | None, Some _ => bs "FAIL invalid input accepted"
       | Some v, None =>
           if negb known then bs "ok"
+          else if too_deep v then bs "ok"
           else if mem_bytes ver spec_enforcing_versions && has_unsafe_number v then bs "ok"
           else if mem_bytes ver spec_enforcing_versions && has_neg_zero v then bs "ok" (* -0: refusing is permitted *)
           else bs "FAIL valid input refused"
       | Some v, Some out =>
           if negb known then bs "FAIL unknown room version accepted"
+          else if too_deep v then bs "FAIL document nested deeper than the limit accepted"
           else if mem_bytes ver spec_enforcing_versions && has_unsafe_number v
           then bs "FAIL non-integer or out-of-range number accepted by an enforcing room version"
           else prop_all [t; obs]
@@ -187,6 +232,12 @@ Definition prop_enforced (args : list bytes) : bytes :=
 
 Definition ops_C01 : list (bytes * (list bytes -> bytes)) :=
   [ (bs "C01.canonical", run_canonical_C01);
+    (bs "C01.canonical_unguarded", run_canonical_unguarded);
+    (bs "C01.nesting", run_nesting);
+    (bs "C01.nesting_lim", run_nesting_lim);
+    (bs "C01.accepts", run_accepts);
+    (bs "C01.enforced_accepts", run_enforced_accepts);
+    (bs "C01.prop.depth", prop_depth);
     (bs "C01.enforced", run_enforced);
     (bs "C01.valid", run_valid);
     (bs "C01.pair", run_pair);
